@@ -4,3 +4,5 @@ package file
 
 func verifPoint(string)  {}
 func verifSynced(string) {}
+
+func verifFail(string) error { return nil }
